@@ -172,6 +172,12 @@ class CSSRuleRules(CSSRule):
         cssRules.extend = self.insertRule
         cssRules.__delitem__ == self.deleteRule
 
+        # rules of the list that is replaced do not belong to this rule anymore
+        for rule in getattr(self, '_cssRules', ()):
+            if rule._parentRule is self:
+                rule._parentRule = None
+                rule._parent = None
+
         for rule in cssRules:
             rule._parentRule = self
             rule._parent = self
